@@ -4,7 +4,8 @@ repository's own tests pass with the change (scratch worktree), then apply it to
 check (must stay quiet), restore /repo.  A VIOLATION here is either a broken tie on an internal detail
 (`no-failing-input-found`: expected for internal-policy changes the model mirrors) or a false alarm to be corrected.
 
-  harmtest.py import <Cxx> ...      harmtest.py run [<id> ...] [--tier quick|thorough]
+  harmtest.py import [--round 2] <Cxx> ...  (round 2: /tmp/harm2-<Cxx>-out/harm_<i> -> <Cxx>-h<3+i>)
+  harmtest.py run [<id> ...] [--tier quick|thorough]
 """
 import fcntl
 import json
@@ -26,10 +27,11 @@ def sh(cmd, cwd=None, timeout=3600):
     return p.returncode, p.stdout
 
 
-def do_import(props):
+def do_import(props, rnd=1):
     for p in props:
         for i in (1, 2, 3):
-            src = Path(f"/tmp/harm-{p}/harm_{i}")
+            src = Path(f"/tmp/harm-{p}/harm_{i}") if rnd == 1 else Path(f"/tmp/harm{rnd}-{p}-out/harm_{i}")
+            hid = f"{p}-h{i + 3 * (rnd - 1)}"
             if not (src / "patch.diff").exists():
                 print(f"{p}-h{i}: no patch")
                 continue
@@ -47,7 +49,7 @@ def do_import(props):
                 sh(["git", "-C", "/repo", "worktree", "remove", "--force", str(wt)])
                 shutil.rmtree(tmp, ignore_errors=True)
             if ok and tests:
-                d = H / f"{p}-h{i}"
+                d = H / hid
                 d.mkdir(parents=True, exist_ok=True)
                 shutil.copy(src / "patch.diff", d / "patch.diff")
                 meta = json.loads((src / "meta.json").read_text()) if (src / "meta.json").exists() else {"property": p}
@@ -55,9 +57,9 @@ def do_import(props):
                 meta["origin"] = "independent sub-agent given only the property text; asked for a change that keeps the property true"
                 meta["tests_pass_with_change"] = True
                 (d / "meta.json").write_text(json.dumps(meta, indent=1) + "\n")
-                print(f"{p}-h{i}: imported")
+                print(f"{hid}: imported")
             else:
-                print(f"{p}-h{i}: NOT imported (applies={ok} tests={tests})")
+                print(f"{hid}: NOT imported (applies={ok} tests={tests})")
 
 
 def do_run(ids, tier):
@@ -105,7 +107,12 @@ def do_run(ids, tier):
 
 if __name__ == "__main__":
     if sys.argv[1] == "import":
-        do_import(sys.argv[2:])
+        a = sys.argv[2:]
+        rnd = 1
+        if "--round" in a:
+            rnd = int(a[a.index("--round") + 1])
+            a = [x for x in a if x not in ("--round", str(rnd))]
+        do_import(a, rnd)
     else:
         tier = "quick"
         a = sys.argv[2:]
